@@ -25,7 +25,7 @@ class Game(AsyncMode):
 
     __slots__ = ["_balls_in_play", "player_list", "slam_tilted", "tilted", "ending", "num_players",
                  "_stopping_modes", "_stopping_queue", "_end_ball_event", "_at_least_one_player_event",
-                 "balls_per_game", "max_players"]
+                 "balls_per_game", "max_players", "_player_turn_active"]
 
     def __init__(self, *args, **kwargs):
         """Initialize game."""
@@ -44,6 +44,7 @@ class Game(AsyncMode):
         self._at_least_one_player_event = None  # type: asyncio.Event
         self.balls_per_game = None
         self.max_players = None
+        self._player_turn_active = False
 
         self.machine.events.add_handler('mode_{}_stopping'.format(self.name), self._stop_game_modes)
 
@@ -61,6 +62,7 @@ class Game(AsyncMode):
         self._balls_in_play = 0
         self._stopping_modes = []
         self._stopping_queue = None
+        self._player_turn_active = False
         self._end_ball_event = asyncio.Event()
         self._end_ball_event.clear()
         self._at_least_one_player_event = asyncio.Event()
@@ -552,7 +554,8 @@ class Game(AsyncMode):
             self.debug_log("Game is at max players. Cannot add another.")
             return False
 
-        if self.player and self.player.ball > 1:  # todo config setting
+        # a player whose turn has not started yet is about to play ball + 1
+        if self.player and self.player.ball + (0 if self._player_turn_active else 1) > 1:  # todo config setting
             self.debug_log("Current ball is after Ball 1. Cannot add player.")
             return False
 
@@ -700,6 +703,7 @@ class Game(AsyncMode):
         desc: The ball number for this player. If a player gets an extra ball,
         this number won't change when they start the extra ball.
         '''
+        self._player_turn_active = True
 
         await self.machine.events.post_async('player_turn_started',
                                              player=self.player,
@@ -758,6 +762,7 @@ class Game(AsyncMode):
         player: The player object whose turn is ending.
         number: The player number
         '''
+        self._player_turn_active = False
 
     async def _rotate_players(self):
         """Rotate the game to the next player.
